@@ -431,6 +431,8 @@ CHECKS = {
               dict(test="TestC18JsonRoundTrip", pkg="p18", quick=T(1, 1200), thorough=T(2, 10000, 0, 3000)),
               dict(test="TestC18RawRequests", pkg="p18", quick=T(2, 500), thorough=T(4, 8000, 0, 3000)),
               dict(test="TestC18PageCap", pkg="p18", quick=T(1, 25), thorough=T(2, 600, 0, 3000)),
+              dict(test="TestC18Point", pkg="p18", quick=T(2, 400), thorough=T(4, 6000, 0, 3000)),
+              dict(test="TestC18Subscribe", pkg="p18", quick=T(1, 150), thorough=T(2, 1000, 0, 3000)),
               F("FuzzC18Request", 180, "p18")],
     ),
     "C15": dict(
